@@ -63,7 +63,9 @@ def main():
         verdicts = {}
 
         def one(c):
-            e = dict(os.environ, VERIF_REPO=repo, VERIF_BUDGET=a.budget, RV_OUT_DIR=os.path.join(scratch, "out-" + c))
+            # closures / lattices need their full budget to be conclusive
+            budget = {"C05": "55", "C06": "80"}.get(c, a.budget)
+            e = dict(os.environ, VERIF_REPO=repo, VERIF_BUDGET=budget, RV_OUT_DIR=os.path.join(scratch, "out-" + c))
             r = sh([os.path.join(VERIF, "check"), c, a.tier], cwd=VERIF, env=e, timeout=7200)
             detail = next((l.strip() for l in r.stdout.splitlines() if l.startswith("  clause=")), "")
             first = next((l for l in r.stdout.splitlines() if l.startswith(("INCONCLUSIVE",))), "")
